@@ -1,6 +1,7 @@
 //! Native replay of a Kani counterexample against the real (normally compiled) code.
 //! usage: replay <harness> <byte-vector>...   where every byte vector is written as comma separated decimal bytes
 use lightning_signer::channel::ChannelId;
+use lightning_signer::util::velocity::{VelocityControl, VelocityControlIntervalType, VelocityControlSpec};
 
 fn parse(v: &str) -> Vec<u8> {
     v.split(',').filter(|s| !s.trim().is_empty()).map(|s| s.trim().parse::<u8>().expect("byte")).collect()
@@ -28,6 +29,17 @@ fn main() {
             let got = ChannelId::new_from_peer_id_and_oid(&p, x).oid();
             println!("ChannelId::new_from_peer_id_and_oid(p, {}).oid() = {}", x, got);
             got == x
+        }
+        "c12_tracked_interval_is_the_named_period" => {
+            // kani::any::<u64>() (limit), then kani::any::<u8>() (0 = Hourly, 1 = Daily)
+            let limit = u64::from_le_bytes(vals[0].clone().try_into().expect("8 bytes"));
+            let daily = vals[1][0] == 1;
+            let it = if daily { VelocityControlIntervalType::Daily } else { VelocityControlIntervalType::Hourly };
+            let vc = VelocityControl::new(VelocityControlSpec { limit_msat: limit, interval_type: it });
+            let tracked = vc.bucket_interval as u64 * vc.buckets.len() as u64;
+            println!("VelocityControl::new({}, {}) tracks {} s in {} buckets of {} s", limit, if daily { "Daily" } else { "Hourly" },
+                tracked, vc.buckets.len(), vc.bucket_interval);
+            tracked == (if daily { 86400 } else { 3600 }) && vc.limit == limit
         }
         other => {
             eprintln!("no native replay for harness {}", other);
